@@ -14,6 +14,7 @@ import (
 	"io"
 	"os"
 	"os/exec"
+	"runtime/debug"
 	"sort"
 	"strings"
 	"sync"
@@ -305,7 +306,11 @@ func (ru *Runner) Do(mk func() *Case) {
 func safeMk(mk func() *Case) (c *Case) {
 	defer func() {
 		if p := recover(); p != nil {
-			c = &Case{Kind: "panic", Impl: fmt.Sprintf("PANIC %v", p), Oracle: fmt.Sprintf("the implementation panicked: %v", p), NonTrivial: true}
+			st := string(debug.Stack())
+			if len(st) > 1500 {
+				st = st[:1500]
+			}
+			c = &Case{Kind: "panic", Impl: fmt.Sprintf("PANIC %v", p), Oracle: fmt.Sprintf("the implementation panicked: %v", p), NonTrivial: true, Note: st}
 		}
 	}()
 	return mk()
